@@ -278,6 +278,13 @@ def _iso_spec(rng, cfg):
         spec.update(pressure=p, loading=l, branch=branch, other=other)
         if rng.random() < 0.08:
             spec["pressure"][0] = spec["pressure"][0] + 1e-3   # differs in one data point only
+        if cfg["open_domain"] and rng.random() < 0.2:
+            # whole-number data as true integers (outside the required domain: refused, or returned equal)
+            k = len(spec["pressure"])
+            spec["pressure"] = [i + 1 for i in range(k)]
+            spec["loading"] = [2 * i + 1 for i in range(k)]
+            spec["branch"] = "ads"
+            spec["other"] = {}
     elif kind == "model":
         if rng.random() < 0.5:
             spec["model"] = {"name": "Langmuir", "rmse": 0.0125, "parameters": {"K": rng.choice([1.5, 2.25]), "n_m": 3.5},
